@@ -6,7 +6,7 @@ ORDINARY = ['PREY', 'PREDATOR', 'SHEEP', 'WOLF', 'GRASS', 'TAG1', 'TAG2', 'Tag3'
 HOSTILE_INSTANCE = ['itemize', 'add_tag', 'get_tag_name', '_tag_counter', '_tag_names', '__len__', '__class__', '__dict__', '__init__',
                     '__doc__', '__weakref__', '__module__', '__getattr__', '__getattribute__', '__setattr__', '__slots__', '__hash__',
                     '__eq__', '__repr__', '__new__', 'mro', '__name__', '', ' ', 'two words', '1st', 'tag-with-dash', 'näme', '标签',
-                    'none', 'None', 'NONE ', 'x' * 10000, 'self', 'lambda', 'tag.with.dots', '\n', 'TagLibrary', '_module_library']
+                    'none', 'None', 'NONE ', 'x' * 10000, 'km\u00b2', '\ufb01sh', '\uff21\uff22', '\u212bngstrom', 'e\u0301', 'self', 'lambda', 'tag.with.dots', '\n', 'TagLibrary', '_module_library']
 HOSTILE_MODULE = HOSTILE_INSTANCE + ['TagLibrary', 'DuplicateTagError', 'TagNotFoundError', '_module_library', '__file__', '__builtins__',
                                      '__spec__', '__loader__', '__package__', '__path__', '__all__', '__cached__', 'itemize', 'add_tag']
 
